@@ -434,6 +434,9 @@ func bubble(c *explore.Ctx, nBlocks, horizon int) (out outcome) {
 
 func TestCheck(t *testing.T) {
 	r := vf.Start("C06", "model_checking")
+	if r.RunShards(16) { // bubble-heavy: one process per shard of the exploration
+		return
+	}
 	nBlocks := vf.Pick(r, 3, 4)
 	horizon := vf.Pick(r, 16, 20)
 	budgets := vf.Pick(r, map[string]int{"da": 2, "crash": 1}, map[string]int{"da": 3, "crash": 2})
